@@ -244,7 +244,13 @@ func (c *ServerChannel) EstablishSession(
 			negEncryptOpts = append(negEncryptOpts, v.(SessionEncryption))
 		}
 
-		if len(negCompOpts) > 1 || len(negEncryptOpts) > 1 {
+		// The negotiation is also required when the only remaining option is not
+		// the one currently in use by the transport (for instance, a server that
+		// offers only TLS over a still unencrypted TCP connection).
+		mustSwitchComp := len(negCompOpts) == 1 && negCompOpts[0] != c.transport.Compression()
+		mustSwitchEncrypt := len(negEncryptOpts) == 1 && negEncryptOpts[0] != c.transport.Encryption()
+
+		if len(negCompOpts) > 1 || len(negEncryptOpts) > 1 || mustSwitchComp || mustSwitchEncrypt {
 			// Negotiate the session options
 			if err = c.negotiateSession(ctx, negCompOpts, negEncryptOpts); err != nil {
 				return err
